@@ -94,7 +94,8 @@ func ResourceType(w *World, id ResID) (reflect.Type, bool) {
 //
 // See also [AddResource].
 func GetResource[T any](w *World) *T {
-	return w.resources.Get(ResourceID[T](w)).(*T)
+	res, _ := w.resources.Get(ResourceID[T](w)).(*T)
+	return res
 }
 
 // AddResource adds a resource to the world.
